@@ -496,6 +496,101 @@ async def c16_getattr_snapshot(w):
             "expected": "a captured snapshot never changes"}
 
 
+def _run_requirements(lines_per_file):
+    import os, tempfile
+    from custom_components.pyscript.requirements import process_all_requirements
+    from unittest.mock import patch
+    with tempfile.TemporaryDirectory() as d:
+        for i, lines in enumerate(lines_per_file):
+            sub = os.path.join(d, "modules", f"m{i}")
+            os.makedirs(sub)
+            with open(os.path.join(sub, "requirements.txt"), "w") as f:
+                f.write("\n".join(lines) + "\n")
+        with patch("custom_components.pyscript.requirements.get_installed_version", return_value=None):
+            r = process_all_requirements(d, ("", "modules/*"), "requirements.txt")
+    return {k: v["version"] for k, v in r.items()}
+
+
+async def c20_merge_order(w):
+    """The selected version must not depend on the order of lines; malformed lines are ignored."""
+    import itertools
+    from packaging.version import Version
+    batteries = [["pkg==notaversion!", "pkg==1.0"], ["pkg==1.9.0", "pkg==1.10.0"], ["pkg", "pkg==2.0", "pkg==10.0"],
+                 ["pkg==1.0", "pkg==1.0.0", "pkg"], ["pkg==0.9", "pkg==0.10", "pkg==0.2"]]
+    bad = {}
+    for lines in batteries:
+        pins = []
+        for l in lines:
+            if "==" in l:
+                try:
+                    pins.append(Version(l.split("==")[1]))
+                except Exception:  # noqa
+                    pass
+        want = max(pins) if pins else None
+        for perm in itertools.permutations(lines):
+            for split in (1, len(perm)):
+                got = _run_requirements([list(perm[:split]), list(perm[split:])] if split < len(perm) else [list(perm)])
+                g = got.get("pkg")
+                ok = (want is None and g == "_unpinned_version") or (want is not None and g not in (None, "_unpinned_version") and _ver(g) == want)
+                if not ok:
+                    bad[" | ".join(perm)] = got
+    return {"reproduced": bool(bad), "observed": dict(list(bad.items())[:4]),
+            "expected": "highest valid '==' pin for every order of lines and files (malformed pins ignored)"}
+
+
+def _ver(s):
+    from packaging.version import Version
+    try:
+        return Version(s)
+    except Exception:  # noqa
+        return None
+
+
+async def _unused():
+    return None
+
+
+async def c20_scanner_bounded(w):
+    """Bounded stand-in for the line scanner: every line form from a small grammar, run through the real
+    process_all_requirements (one line per file) and compared with an independent parser."""
+    import itertools, re
+    names = ["pkg", "my-pkg_2", "a.b"]
+    vers = ["1.0", "2.10.3", "1.0rc1"]
+    pads = ["", " ", "\t"]
+    comments = ["", "# c", " #x==1", "#"]
+    cases = []
+    for n, p1, p2, c in itertools.product(names, pads, pads, comments):
+        cases.append(f"{p1}{n}{p2}{c}")
+        for v in vers:
+            cases.append(f"{p1}{n}=={v}{p2}{c}")
+            cases.append(f"{p1}{n}>={v}{p2}{c}")
+            cases.append(f"{p1}{n}<={v}{c}")
+            cases.append(f"{p1}{n}=={v},<9{c}")
+            cases.append(f"{p1}{n}=={v}=={v}{c}")
+    cases += ["", "   ", "#only comment", "  # x", "==1.0"]
+    cases = sorted(set(cases))
+
+    def oracle(line):
+        t = line.split("#", 1)[0].strip()
+        if not t:
+            return {}
+        if any(ch in t for ch in ",<>") or t.count("==") > 1:
+            return {}
+        if "==" in t:
+            n, v = t.split("==")
+            return {n: v}
+        return {t: "_unpinned_version"}
+    failures = []
+    for line in cases:
+        got = _run_requirements([[line]])
+        exp = oracle(line)
+        if got != exp:
+            failures.append({"signature": "scanner:" + repr(line)[:40], "line": line, "got": got, "expected": exp})
+    return {"unit": "process_all_requirements line scanner", "method": "enumeration of line forms vs independent parser",
+            "bound": f"{len(cases)} line forms (3 names x 3 versions x paddings x comment forms x specifier forms)",
+            "cases": len(cases), "failures": failures[:5], "reproduced": bool(failures)}
+
+
 SCENARIOS = {k: v for k, v in list(globals().items()) if asyncio.iscoroutinefunction(v) and k[0] == "c"}
 
 if __name__ == "__main__":
